@@ -231,7 +231,10 @@ def not_run(lines):
     return len(lines) > 1 and lines[1] == "NOT-RUN"
 
 
-def run_impl(engine, cases, timeout=600, extra_env=None, stall=45, _hangs=0):
+STALL = {"world": 20, "codec": 30, "net": 45}  # seconds without a new output line before the process counts as hung
+
+
+def run_impl(engine, cases, timeout=600, extra_env=None, stall=None, _hangs=0):
     """Run the real code on the cases.  A crash (abort/stack overflow/hang) is isolated and recorded as
     the outcome of the case that caused it: engines that flush every line name the culprit directly (the
     case in which the output stopped); the others are bisected."""
@@ -239,6 +242,7 @@ def run_impl(engine, cases, timeout=600, extra_env=None, stall=45, _hangs=0):
         return []
     text = "".join(c.text() for c in cases)
     want = sum(1 + len(c.ops) for c in cases)
+    stall = stall or STALL.get(engine, 45)
     if engine in FLUSHING:
         if _hangs >= MAX_HANGS:
             return [["case " + c.name] + ["NOT-RUN"] * len(c.ops) for c in cases]
